@@ -3,13 +3,13 @@
 cd /verif
 L=${REGRESS_LOGS:-/tmp}
 W=/verif/.work/par
-for c in refactor2 refactor4 refactor5 refactor6 refactor7 features3 features5 features6 features7; do
+for c in refactor2 refactor4 refactor5 refactor6 refactor7 refactor8 features3 features5 features6 features7; do
   PLSA_WORK=$W/$c python3 tools/matrix.py /verif/selftest/$c > $L/regress_$c.log 2>&1 &
 done
 PLSA_WORK=$W/benign python3 tools/benign.py > $L/regress_benign.log 2>&1 &
 wait
 PLSA_WORK=$W/benign python3 tools/rename_probe.py > $L/regress_rename.log 2>&1
-for c in refactor2 refactor4 refactor5 refactor6 refactor7 features3 features5 features6 features7; do
+for c in refactor2 refactor4 refactor5 refactor6 refactor7 refactor8 features3 features5 features6 features7; do
   echo "== $c alarms: $(grep -c DETECTED-BY $L/regress_$c.log) of $(grep -c -E 'DETECTED-BY| missed ' $L/regress_$c.log); errors $(grep -c ERROR $L/regress_$c.log)"
   grep DETECTED-BY $L/regress_$c.log | cut -c1-260
 done
